@@ -35,7 +35,8 @@ RULE = ("Hypothesis draws (map kind, variable declarations over base / "
         "loaded and run once under BPF_PROG_TEST_RUN; non-trivial = >= 2 "
         "variables of different sizes, or a multi-element / x / per-CPU / "
         "inherited / subprogram variable; distinct by (map kind, sorted "
-        "formats with their owners, override)")
+        "formats with their owners, override); plus an enumerated family "
+        "of fixed-point variables with raw values of 45-63 bits")
 ASSUMPTIONS = [
     "runs against real kernel maps (bpf(2) needed); the interpreter is not "
     "involved",
